@@ -39,7 +39,9 @@ Inductive op :=
 | OSet (p : string) (v : fval)                      (* e.set_property(p, v) *)
 | OUnset (p : string)                               (* e.set_property(p, None) *)
 | OGet (p : string)                                 (* e.get_property(p) *)
-| OSetMany (kvs : list (string * option fval)).     (* e.set_properties(p1=v1, ...) *)
+| OSetMany (kvs : list (string * option fval))      (* e.set_properties(p1=v1, ...) *)
+| OBadValue (p : string).                           (* the value's own constructor refused (e.g. a JSON blob over
+                                                       MAX_SIZE): raised before set_property, nothing happens *)
 
 Inductive opres := RDone | RVal (v : option fval) | RRaise.
 
@@ -57,6 +59,7 @@ Definition run_op (k : kind) (d : props) (o : op) : opres * props :=
   | OUnset p => match set_property k p None d with Ok d' => (RDone, d') | Err _ => (RRaise, d) end
   | OGet p => match get_property k p d with Ok v => (RVal v, d) | Err _ => (RRaise, d) end
   | OSetMany kvs => match set_properties k kvs d with Ok d' => (RDone, d') | Err _ => (RRaise, d) end
+  | OBadValue _ => (RRaise, d)
   end.
 
 Fixpoint run_ops (k : kind) (d : props) (ops : list op) : list opres * props :=
